@@ -16,6 +16,11 @@ From TskVerif Require Import C01.EdgeProofs.
 From TskVerif Require Import C01.LinkProofs.
 From TskVerif Require Import C01.RepProofs.
 From TskVerif Require Import C01.TraversalProofs.
+From TskVerif Require Import C01.ClosedProofs.
+From TskVerif Require Import C01.NumEdgesProofs.
+From TskVerif Require Import C01.OrderProofs.
+From TskVerif Require Import C01.PostorderProofs.
+From TskVerif Require Import C01.ViewsProofs.
 Import ListNotations.
 Open Scope Z_scope.
 
@@ -284,6 +289,100 @@ Proof.
   exists K. split; [exact O1|]. split; [exact O2|]. split.
   - intros p Hp. apply (children_of_rep ns o t K p LR L0 Hp).
   - intros root out Hr. apply (preorder_from_spec (zlen ns) t K LR L0 ltac:(unfold zlen; lia) root out Hr).
+Qed.
+
+Lemma counts_closed_form_lemma L ns es Ins Rem q :
+  valid_edgesb L ns es = true -> index_sorted es Ins Rem -> mk_tseq L ns es Ins Rem = Ok q ->
+  forall o k t, tree_at_index q o k = Ok t ->
+  let N := zlen ns in
+  forall u, 0 <= u < N ->
+    get (t_ns t) u = get (sub_counts (S (Z.to_nat N)) (t_parent t) (ind (q_samples q))) u /\
+    get (t_nt t) u = get (sub_counts (S (Z.to_nat N)) (t_parent t) (ind (o_tracked o))) u.
+Proof.
+  intros HVb HI HQ o k t H N u Hu.
+  destruct (counts_invariant L ns es Ins Rem q (valid_edgesb_spec _ _ _ HVb) HI HQ o k t H)
+    as (L0 & L1 & L2 & _ & MO & LE1 & LE2 & _).
+  assert (HN : 0 <= N) by (unfold N, zlen; lia).
+  split; eapply closed_form; eauto.
+Qed.
+
+Lemma num_edges_exact_lemma L ns es Ins Rem q :
+  valid_edgesb L ns es = true -> index_sorted es Ins Rem -> mk_tseq L ns es Ins Rem = Ok q ->
+  forall o k t, tree_at_index q o k = Ok t -> t_num_edges t = nparents (t_parent t).
+Proof.
+  intros HVb HI HQ o k t H.
+  exact (num_edges_invariant L ns es Ins Rem q (valid_edgesb_spec _ _ _ HVb) HI HQ o k t H).
+Qed.
+
+Lemma roots_correct_lemma L ns es Ins Rem q :
+  valid_edgesb L ns es = true -> index_sorted es Ins Rem -> mk_tseq L ns es Ins Rem = Ok q ->
+  forall o, 1 <= o_thr o -> forall k t, tree_at_index q o k = Ok t ->
+  exists rs, roots_of (zlen ns) t = Ok rs /\ NoDup rs /\ get (t_nc t) (zlen ns) = Ok (zlen rs) /\
+    forall c, In c rs <->
+      0 <= c < zlen ns /\ get (t_parent t) c = Ok NULL /\ exists n, get (t_ns t) c = Ok n /\ o_thr o <= n.
+Proof.
+  intros HVb HI HQ o Hthr k t H.
+  destruct (links_consistent_top L ns es Ins Rem q HVb HI HQ o Hthr k t H) as (K & A & _ & C).
+  destruct (A (zlen ns) ltac:(unfold zlen; lia)) as (_ & ND & NC & CO).
+  exists (K (zlen ns)). unfold roots_of. auto.
+Qed.
+
+Lemma postorder_correct_lemma L ns es Ins Rem q :
+  valid_edgesb L ns es = true -> index_sorted es Ins Rem -> mk_tseq L ns es Ins Rem = Ok q ->
+  forall o, 1 <= o_thr o -> forall k t, tree_at_index q o k = Ok t ->
+  let N := zlen ns in
+  exists K : Z -> list Z,
+    (forall p, 0 <= p <= N -> children_of t p = Ok (K p)) /\
+    forall root out, postorder_from N t root = Ok out ->
+      (root = -1 /\ exists ls, Forall2 (Post K) (K N) ls /\ out = concat ls) \/
+      (root = N /\ exists ls, Forall2 (Post K) (K N) ls /\ out = concat ls ++ [N]) \/
+      (0 <= root < N /\ Post K root out).
+Proof.
+  intros HVb HI HQ o Hthr k t H N.
+  pose proof (valid_edgesb_spec _ _ _ HVb) as HV.
+  destruct (rep_invariant L ns es Ins Rem q HV HI HQ o Hthr k t H) as [JC (K & LR & [O1 O2])].
+  destruct JC as (L0 & _ & _ & _ & MO & _).
+  exists K. split.
+  - intros p Hp. apply (children_of_rep ns o t K p LR L0 Hp).
+  - intros root out Hr.
+    apply (postorder_from_spec (zlen ns) t K (tmf ns) LR L0 ltac:(unfold zlen; lia)); auto.
+    + intros p c Hp Hc. apply (O1 p c Hp). exact Hc.
+    + intros c Hc. apply O2 in Hc. tauto.
+Qed.
+
+Lemma pyviews_correct_lemma L ns es Ins Rem q :
+  valid_edgesb L ns es = true -> index_sorted es Ins Rem -> mk_tseq L ns es Ins Rem = Ok q ->
+  forall o, 1 <= o_thr o -> forall k t, tree_at_index q o k = Ok t ->
+  let N := zlen ns in
+  exists K : Z -> list Z,
+    (forall p, 0 <= p <= N -> children_of t p = Ok (K p)) /\
+    (forall root out, root = -1 \/ 0 <= root <= N ->
+       let starts := if root =? -1 then K N else [root] in
+       (inorder N t root = Ok out -> exists ls, Forall2 (InO K) starts ls /\ out = concat ls) /\
+       (levelorder N t root = Ok out -> BFS K starts out)).
+Proof.
+  intros HVb HI HQ o Hthr k t H N.
+  pose proof (valid_edgesb_spec _ _ _ HVb) as HV.
+  destruct (rep_invariant L ns es Ins Rem q HV HI HQ o Hthr k t H) as [JC (K & LR & _)].
+  destruct JC as (L0 & _).
+  assert (HN : 0 <= N) by (unfold N, zlen; lia).
+  assert (CO : forall p, 0 <= p <= N -> children_of t p = Ok (K p)).
+  { intros p Hp. apply (children_of_rep ns o t K p LR L0 Hp). }
+  exists K. split; [exact CO|].
+  intros root out Hroot starts.
+  assert (ST : start_nodes N t root = Ok starts).
+  { unfold start_nodes, starts, roots_of. destruct (root =? -1); [apply CO; lia | reflexivity]. }
+  assert (SR : forall x, In x starts -> 0 <= x <= N).
+  { unfold starts. destruct (root =? -1) eqn:E.
+    - intros x Hx. pose proof (lr_range _ _ _ LR N x ltac:(lia) Hx). lia.
+    - apply Z.eqb_neq in E. intros x [<-|[]]. lia. }
+  split.
+  - unfold inorder. rewrite ST. cbn [bind]. intros HI'. bind_inv HI'. inversion HI'; subst out.
+    exists a. split; [|reflexivity].
+    eapply mapM_Forall2; [|exact E]. intros x y Hx Hy.
+    eapply (inorder_rec_spec (zlen ns) t K LR L0 HN); [apply SR; exact Hx | exact Hy].
+  - unfold levelorder. rewrite ST. cbn [bind]. intros HL.
+    eapply (level_loop_spec (zlen ns) t K LR L0 HN); eauto.
 Qed.
 
 (* --- the same for the load path (tsk_table_collection_build_index) --- *)
